@@ -617,6 +617,11 @@ where
                     if let multicast::Response::GroupSetupTransmitRequest { group_id } = response {
                         response = multicast::Response::NewSession { group_id };
                     }
+                } else if rx_config.is_none() && response.is_for_async_mc_response() {
+                    // An authentic multicast frame heard inside a Class A receive window ends the
+                    // uplink transaction without a unicast downlink. Complete the uplink first,
+                    // otherwise its frame counter would be used again by the next uplink.
+                    let _ = mac.rx2_complete();
                 }
                 if response.is_for_async_mc_response() {
                     Ok(Some(mac::Response::Multicast(response)))
